@@ -50,4 +50,63 @@ theorem append_if_not_nil_returns_src : append_if_not_nil_returns = "nil | []T{}
 theorem opt_clone_option_rhs_src : opt_clone_option_rhs = "clone.Option[:0]" := by decide
 theorem https_clone_value_rhs_src : https_clone_value_rhs = "clone.Value[:0]" := by decide
 
+/-! ### Pooled request contexts (`Agd/Model/PoolCtx.lean`)
+
+The model's discipline `ReadsOkC` — a request reads only fields it has filled since `Get`, or fields that the
+pool's `New` sets and nobody ever writes — is tied to the five pooled structs field by field: the fields of
+each struct, and the assignment that fills each of them from the request's own data. -/
+
+/-- `agd.RequestInfo`: 13 fields. -/
+theorem ri_fields_src : ri_fields =
+    "DeviceResult,Location,ECS,FilteringGroup,Messages,ServerGroup,RemoteIP,Server,Host,ID,QType,QClass,Proto" := by decide
+/-- Four of them are set by the pool's `New` (the pool belongs to one server's middleware) … -/
+def riPoolNew : String :=
+  "func() (v *agd.RequestInfo) { return &agd.RequestInfo{ FilteringGroup: c.FilteringGroup, ServerGroup: c.ServerGroup, Server: c.Server.Name, Proto: c.Server.Protocol, } }"
+theorem ri_pool_new_src : ri_pool_new = riPoolNew := by decide
+/-- … the other nine are filled for every request, from the request. -/
+theorem ri_fill_messages_src : ri_fill_messages = "mw.messages" := by decide
+theorem ri_fill_remote_src : ri_fill_remote = "raddr.Addr()" := by decide
+theorem ri_fill_host_src : ri_fill_host = "agdnet.NormalizeDomain(q.Name)" := by decide
+theorem ri_fill_qtype_src : ri_fill_qtype = "q.Qtype" := by decide
+theorem ri_fill_qclass_src : ri_fill_qclass = "q.Qclass" := by decide
+theorem ri_fill_id_src : ri_fill_id = "agd.RequestIDFromContext(ctx)" := by decide
+theorem ri_fill_device_src : ri_fill_device = "mw.deviceFinder.Find(ctx, req, raddr, localAddr)" := by decide
+theorem ri_fill_loc_ecs_src : ri_fill_loc_ecs = "loc, ecs" := by decide
+/-- `filteringContext`: all eight fields are reset at once. -/
+theorem fctx_fields_src : fctx_fields =
+    "originalRequest,modifiedRequest,originalResponse,filteredResponse,requestResult,responseResult,elapsed,isDebug" := by decide
+theorem fctx_reset_src : fctx_reset = "filteringContext{}" := by decide
+/-- `filter.Request`: seven fields, each filled (`ClientName` in both branches). -/
+theorem fltreq_fields_src : fltreq_fields = "DNS,Messages,RemoteIP,ClientName,Host,QType,QClass" := by decide
+theorem fltreq_fill_dns_src : fltreq_fill_dns = "req" := by decide
+theorem fltreq_fill_messages_src : fltreq_fill_messages = "ri.Messages" := by decide
+theorem fltreq_fill_remoteip_src : fltreq_fill_remoteip = "ri.RemoteIP" := by decide
+theorem fltreq_fill_host_src : fltreq_fill_host = "ri.Host" := by decide
+theorem fltreq_fill_qtype_src : fltreq_fill_qtype = "ri.QType" := by decide
+theorem fltreq_fill_qclass_src : fltreq_fill_qclass = "ri.QClass" := by decide
+theorem fltreq_fill_clientname_src : fltreq_fill_clientname = "string(d.Name)" := by decide
+theorem fltreq_fill_clientname_else_src : fltreq_fill_clientname_else = "\"\"" := by decide
+/-- `filter.Response`: three fields. -/
+theorem fltresp_fields_src : fltresp_fields = "DNS,RemoteIP,ClientName" := by decide
+theorem fltresp_fill_dns_src : fltresp_fill_dns = "resp" := by decide
+theorem fltresp_fill_remoteip_src : fltresp_fill_remoteip = "ri.RemoteIP" := by decide
+theorem fltresp_fill_clientname_src : fltresp_fill_clientname = "string(d.Name)" := by decide
+theorem fltresp_fill_clientname_else_src : fltresp_fill_clientname_else = "\"\"" := by decide
+/-- `ecscache.cacheRequest`: six fields; `subnet` is assigned on both branches. -/
+theorem cr_fields_src : cr_fields = "host,subnet,qType,qClass,reqDO,isECSDeclined" := by decide
+theorem cr_fill_key_src : cr_fill_key = "ri.Host, ri.QType, ri.QClass" := by decide
+theorem cr_fill_do_src : cr_fill_do = "dnsmsg.IsDO(req)" := by decide
+theorem cr_fill_declined_src : cr_fill_declined = "ri.ECS != nil && ri.ECS.Subnet.Bits() == 0" := by decide
+theorem cr_fill_subnet_zero_src : cr_fill_subnet_zero = "netutil.ZeroPrefix(ecsFam)" := by decide
+theorem cr_fill_subnet_geo_src : cr_fill_subnet_geo = "mw.geoIP.SubnetByLocation(loc, ecsFam)" := by decide
+/-- `mainmw`: the upstream's answer is released after its last use (the query log reads it). -/
+theorem wrap_call_order_src : wrap_call_order = "rw.WriteMsg,mw.recordQueryInfo,mw.cloner.Dispose" := by decide
+/-- Every pooled context is put back exactly once per request, by one (deferred) call; the access check does
+not put the request information back.  (`context_double_put_counterexample`: what a second `Put` does.) -/
+theorem ri_put_count_src : ri_put_count = "1" := by decide
+theorem ri_put_in_access_src : ri_put_in_access = "0" := by decide
+theorem fctx_put_count_src : fctx_put_count = "1" := by decide
+theorem cr_put_count_src : cr_put_count = "1" := by decide
+theorem qlog_buf_put_count_src : qlog_buf_put_count = "1" := by decide
+
 end Agd.Tie.C07
